@@ -246,7 +246,7 @@ fn build(n: &Node, dt: &DataType, share: bool, cache: &mut DictCache) -> Option<
             let k = *size as usize;
             let a = make_array(kids.into_iter().next()?);
             if a.len() < (n.off + n.len) * k { return None }
-            return arrow_array::FixedSizeListArray::try_new(f.clone(), *size, a.slice(n.off * k, n.len * k), own_nulls(n)).ok().map(|u| u.into_data());
+            return arrow_array::FixedSizeListArray::try_new_with_length(f.clone(), *size, a.slice(n.off * k, n.len * k), own_nulls(n), n.len).ok().map(|u| u.into_data());
         }
         _ => {}
     }
@@ -759,9 +759,11 @@ fn hazard(n: &Node, s: usize, l: usize, imp: bool) -> bool {
         }
         Ty::Ree { rw, .. } => {
             let ends = &n.kids[0];
-            if l == 0 { return ends.len > 0 }
-            // values: the physical runs covering [off, off+l)
+            if l == 0 && ends.len > 0 { return true }
             let e: Vec<usize> = (0..ends.len).map(|i| rd(&ends.bufs[0], *rw, ends.off + i) as usize).collect();
+            // into_zero_offset_run_array: an unsliced run array is written as it is (values whole) ...
+            if off == 0 && e.last().copied().unwrap_or(0) == l { return hazard(&n.kids[1], 0, n.kids[1].len, false) }
+            // ... otherwise the values are cut to the physical runs covering [off, off+l)
             let sp = e.iter().filter(|x| **x <= off).count();
             let ep = e.iter().filter(|x| **x < off + l).count();
             hazard(&n.kids[1], sp, ep - sp + 1, false)
